@@ -147,15 +147,19 @@ def gen_headers(rng, sp):
     for _ in range(rng.choice([0, 1, 1, 2, 3])):
         txt = rng.random() < 0.4
         if names and rng.random() < 0.3:
-            name = [c ^ 32 if (65 <= c <= 90 or 97 <= c <= 122) and rng.random() < 0.5 else c for c in rng.choice(names)]
+            name = list(rng.choice(names))
+            if rng.random() < 0.5:             # the very same spelling again, or another capitalisation
+                name = [c ^ 32 if (65 <= c <= 90 or 97 <= c <= 122) and rng.random() < 0.5 else c for c in name]
         elif rng.random() < 0.08:
             name = H.spicy_seq(rng, ["WS", "COLON", "LB", "NUL", "CTL", "OBS", "PUNCT"] + (["UNI"] if txt else []), 0, 5, txt, 0.35)
+            names.append(name)               # an invalid name may be added again: refused every time
         else:
             while True:
                 name = H.token_seq(rng, 1, 8)
                 if bytes(name).lower() not in FRAMING:
                     break
             names.append(name)
+        txt = txt or any(c > 255 for c in name)
         val = H.spicy_seq(rng, HAZ + (["UNI"] if txt else []), 0, 7, txt) if sp() else H.plain_seq(rng, 0, 7)
         hs.append({"name": name, "val": val, "txt": txt})
     hs.insert(rng.randint(0, len(hs)), {"name": list(rng.choice([b"Host", b"host", b"HOST"])), "val": list(b"example.com"), "txt": rng.random() < 0.5})
@@ -193,7 +197,8 @@ def field_scns(rng, maxlen, classes):
         out.append(base(target=conc()))
         out.append(base(assign={"method": conc(), "target": list(b"/")}))
         out.append(base(assign={"method": list(b"GET"), "target": conc()}))
-        out.append(base(hdrs=[dict(host), {"name": conc(), "val": [118], "txt": False}]))
+        nm = conc()      # the same name added twice (invalid: refused every time; valid: two values in order)
+        out.append(base(hdrs=[dict(host), {"name": nm, "val": [118], "txt": False}, {"name": list(nm), "val": [119], "txt": False}]))
         out.append(base(hdrs=[{"name": [88, 45, 84], "val": conc(), "txt": False}, dict(host)]))
     return out
 
@@ -277,7 +282,9 @@ def mutate(t, rng):
     if r < 0.2:
         ev[-1]["out"] = ev[-1]["out"] + [120]                  # an octet that was not written
     elif r < 0.4:
-        w = next(e for e in ev if e["e"] == "writeTo")
+        w = next((e for e in ev if e.get("out")), None)         # first octets that reached the transport
+        if w is None:
+            return None
         w["out"][0] = 32                                        # request line broken
     elif r < 0.6:
         ps = [e for e in ev if e["e"] == "produce" and e["data"]]
@@ -309,8 +316,8 @@ def run(ctx):
     if n.ok or n.kind != "invariant":
         raise MachineryError("negative control: OracleRejects not evaluated (%s)" % (n.error or "no violation"))
 
-    classes = ["ALPHA", "LB", "NUL", "CTL", "WS", "OBS", "SEMI", "EQ", "COLON", "COMMA", "DQ", "PUNCT", "TPUNCT", "DIGIT"]
-    scns = field_scns(ctx.rng, ctx.pick(2, 3), classes if not ctx.quick else classes[:8])
+    classes = ["ALPHA", "CR", "LF", "NUL", "CTL", "WS", "OBS", "SEMI", "EQ", "COLON", "COMMA", "DQ", "PUNCT", "TPUNCT", "DIGIT"]
+    scns = field_scns(ctx.rng, ctx.pick(2, 3), classes if not ctx.quick else classes[:9])
     ctx.exhaustive = True
     ctx.extra["exhaustive_rule"] = "every sequence of <= %d octet-class symbols in each of 6 argument positions (method, uri, assigned method, assigned uri, header name, header value), one position at a time" % ctx.pick(2, 3)
     ctx.extra["per_field_exhaustive_scenarios"] = len(scns)
